@@ -192,9 +192,13 @@ void save_binary (program_t * prog, mem_block_t * includes, mem_block_t * patche
       size_t length = SHARED_STRLEN (p->strings[i]);
       if (length >= USHRT_MAX)
         {
+          /* Not being able to save a binary is no compile error (and this runs in the
+           * middle of epilog(): an error() here would leave with the compiler half
+           * torn down).  Drop the incomplete file and go on without a binary. */
           fclose (f);
-          /* TODO: remove the incomplete binary file */
-          error ("String too long for save_binary.\n");
+          unlink (file_name);
+          debug_message ("save_binary: string too long in /%s, binary not saved\n", prog->name);
+          return;
         }
       bin_count = (uint16_t)length;
       fwrite ((char *) &bin_count, sizeof (bin_count), 1, f);
